@@ -307,3 +307,47 @@ def read_pixels_real(path, group="/"):
     with h5py.File(path, "r") as f:
         g = f[group]
         return _RealCols({k: g["pixels"][k][:].tolist() for k in g["pixels"].keys()}), dict(g.attrs)
+
+
+# ---------------------------------------------------------------------------
+# the bin and chromosome tables a producer wrote are the ones it was given, in the given order
+# ---------------------------------------------------------------------------
+def named_bins(layout, kind, chrom_names=None):
+    bins = concrete_bins(layout, kind)
+    if chrom_names:
+        bins["chrom"] = bins["chrom"].map({f"c{i}": nm for i, nm in enumerate(chrom_names)})
+    return bins
+
+
+def _tables_expected(bins):
+    names = list(dict.fromkeys(bins["chrom"].tolist()))
+    lens = [int(bins[bins["chrom"] == nm]["end"].max()) for nm in names]
+    codes = [names.index(x) for x in bins["chrom"].tolist()]
+    return names, lens, codes, bins["start"].tolist(), bins["end"].tolist()
+
+
+def _tables_read(h5mod, path, group):
+    f = h5mod.File(path, "r")
+    g = f[group]
+    got = ([x.decode() if isinstance(x, bytes) else str(x) for x in g["chroms/name"][:]], [int(x) for x in g["chroms/length"][:]],
+           [int(x) for x in g["bins/chrom"][:]], [int(x) for x in g["bins/start"][:]], [int(x) for x in g["bins/end"][:]])
+    f.close()
+    return got
+
+
+def tables_kept_sym(path, bins, group="/", what="output"):
+    from engine import symh5
+    from engine.symcore import prove
+    got, exp = _tables_read(symh5, path, group), _tables_expected(bins)
+    prove(list(got[0]) == exp[0] and list(got[1]) == exp[1], f"{what}: chromosome table {got[0]} {got[1]} is not the given one in its order {exp[0]} {exp[1]}")
+    prove(tuple(got[2:]) == tuple(exp[2:]), f"{what}: bin table differs from the one given")
+
+
+def tables_kept_real(path, bins, group="/", what="output"):
+    import h5py
+    from .common import OracleFailure
+    got, exp = _tables_read(h5py, path, group), _tables_expected(bins)
+    if list(got[0]) != exp[0] or list(got[1]) != exp[1]:
+        raise OracleFailure(f"{what}: chromosome table {got[0]} {got[1]} is not the given one in its order {exp[0]} {exp[1]}")
+    if tuple(got[2:]) != tuple(exp[2:]):
+        raise OracleFailure(f"{what}: bin table differs from the one given")
